@@ -96,6 +96,8 @@ def run(tier, runner):
     r_emu = config.emul_effect(pre17)
     from ..rules import callgraph
     r_same = callgraph.bytecopy_sametype(pre17)
+    from ..rules import round5
+    r_di = round5.direct_init([p for s_ in stds if s_ < 20 for p in base[s_]] + pre17)
     r_same.require(2, 'byte copies issued by the pre-C++17 emulations')
     r_adv = config.advance(pre17)
     w = detection_witnesses()
@@ -115,13 +117,13 @@ def run(tier, runner):
     r_body_n.require(100, 'function bodies compared')
     r_api_n.require(40, 'API members compared')
     return {
-        'results': [r_assert, r_body_n, r_body_d, r_api_n, r_api_s, r_eff, r_ret, r_emu, r_same, r_adv, r_neg] + r_w,
+        'results': [r_assert, r_body_n, r_body_d, r_api_n, r_api_s, r_eff, r_ret, r_emu, r_same, r_di, r_adv, r_neg] + r_w,
         'explanation': 'The static slice of C16.  BODY-DIFF: every instantiated function body is identical with and without AMC_NONSTD_FEATURES, and '
                        'identical with and without NDEBUG once assert expansions are removed; ASSERT-PURE: assert arguments have no side effect, so '
                        'assertions cannot change behaviour; API-DIFF / DETECT: the pedantic mode only hides or removes the documented extras (detection '
                        'idiom: not usable when off, usable when on), everything else keeps name and access; API-STD: the member set is the same in '
                        'every standard except the documented ones (node API from C++17, <=> in C++20); ABSENT: smallset.hpp does not compile before '
-                       'C++17; EFFECT-DIFF: where #if selects different source per standard both alternatives have the same effect signature; SAMETYPE: the pre-C++17 emulations issue memcpy / memmove only between pointers to the same value type (instantiated with float->int, unsigned->int, int->long, char->signed char: the standard algorithm converts); EMUL-EFFECT / ADVANCE: the pre-C++17 emulations of the memory algorithms have the effect class and the iterator advance of the standard algorithms that C++17/20 builds use instead (e.g. value-construct zeroes trivial elements in every standard); RETURN: '
+                       'C++17; EFFECT-DIFF: where #if selects different source per standard both alternatives have the same effect signature; DIRECT-INIT: the pre-C++20 construct_at emulation direct-initialises like std::construct_at (no list-initialisation); SAMETYPE: the pre-C++17 emulations issue memcpy / memmove only between pointers to the same value type (instantiated with float->int, unsigned->int, int->long, char->signed char: the standard algorithm converts); EMUL-EFFECT / ADVANCE: the pre-C++17 emulations of the memory algorithms have the effect class and the iterator advance of the standard algorithms that C++17/20 builds use instead (e.g. value-construct zeroes trivial elements in every standard); RETURN: '
                        'no function falls off its end in any configuration (always-UB that would make results optimisation dependent).',
         'assumptions': ['transcript equality of whole programs and undefined behaviour that no rule here covers are not decided',
                         'optimisation levels are covered only through the absence of the diagnosable undefined behaviour above'],
